@@ -187,8 +187,9 @@ def judge(ck, c, b, obs, index, classname):
     if obs["overrun"]:
         if b["nstay"] > 0:
             # the code asked for another proposal after a rejection instead of recording the unchanged coordinate
-            ck.violation("rejected proposal is retried inside the step (RejectRetry) instead of being recorded (RejectStay)",
-                         {"class": classname}, site=f"{classname}.take_step:retry-until-accept")
+            if ck.pid == "C01":      # a C01 matter (known finding F1); for other properties both semantics conform
+                ck.violation("rejected proposal is retried inside the step (RejectRetry) instead of being recorded (RejectStay)",
+                             {"class": classname}, site=f"{classname}.take_step:retry-until-accept")
             return "retry"
         ck.violation("acceptance decision: the code rejected / kept drawing where the specification commits",
                      {**ident, "spec_evals": b["evals"], "code_evals": obs["evals"]}, site=site)
